@@ -168,6 +168,17 @@ CHECKS = {
             'Trusted: ev() and RefBuilder in vf/props/c08.py. Group wraps probes only; errors compared by category. '
             'Bounds: wrapper nesting <= 3 (tree depth <= 4), literal depth <= 4.',
             'DESIGN.md section 4 / C08'),
+    'C19': ('Hypothesis-generated (target, literal spec, channel, format, flags) tuples run through glom.cli.main in-process and '
+            'through real `python -m glom` subprocesses, compared with json.dumps(glom(...)); generated hostile spec texts '
+            'with an execution canary and ast.literal_eval as differential oracle',
+            'Generated-input differential testing of the whole CLI surface: stdout and exit status must equal what the '
+            'library computes for json / python / yaml / toml targets delivered by argv, file or stdin with --indent and '
+            '--scalar; GlomError => status 1 and the class name; malformed or unreadable targets => usage error and no '
+            'result; non-literal spec texts must neither execute (canary reachable by name and through dunder walks) nor '
+            'produce a result.',
+            'Trusted: json.dumps / ast.literal_eval / yaml.safe_dump and a 15-line TOML writer. Malformed spec text is only '
+            'required not to execute. Bounds: target depth <= 3, spec depth <= 3; 64 subprocess cases in the quick tier.',
+            'DESIGN.md section 4 / C19'),
 }
 
 NOT_YET = 'check not built yet in this session (design in DESIGN.md section 4); will be claimed once its check is quiet on the unchanged tree'
